@@ -36,6 +36,9 @@ def prec(node):
     return 9
 
 
+CMP_ROW = {'=': 0, '<=': 1, '>=': 1, '<>': 1, '<': 2, '>': 2}      # the comparison operators the grammar ranks alike (between the rows the written order of a chain is not the usual reading: parenthesised)
+
+
 def is_atomish(node):
     """operands of & that need no parentheses whatever rank & has against + and *"""
     return node[0] not in ('bin',)
@@ -96,7 +99,7 @@ def tokens(node, style='min', sep=','):
             if l[0] == 'bin' and l[1] == '&':
                 lp = p != 1          # an & chain directly under a comparison needs none: & binds tighter
             else:
-                lp = prec(l) < p or (p == 1 and prec(l) == 1)
+                lp = prec(l) < p or (p == 1 and prec(l) == 1 and CMP_ROW[l[1]] != CMP_ROW[op])     # a comparison chain of one rank reads from the left: a<b>c is (a<b)>c
             if r[0] == 'bin' and r[1] == '&':
                 rp = p != 1
             else:
@@ -279,7 +282,7 @@ class Abort(Exception):
 
 # ---------------------------------------------------------------- strategies
 
-SPACES = ['', '', ' ', ' ', '\t', '\n', '  ', ' \n ', '\r\n']
+SPACES = ['', '', ' ', ' ', '\t', '\n', '  ', ' \n ', '\r\n', '', ' ', '\xa0', '\x0b', '\x0c', '\u2003', '\u3000', '\u2028', '\x85', '\x1f \u202f']       # what the lexer's \s+ calls white space: the no-break and typographic spaces and the line separators too
 spacing_s = st.lists(st.sampled_from(SPACES), min_size=1, max_size=7)
 
 
